@@ -44,6 +44,7 @@ impl HttpMock {
         tokio::spawn(async move {
             loop {
                 let Ok((mut sock, _)) = listener.accept().await else { break };
+                let _ = sock.set_nodelay(true);
                 let st = Arc::clone(&st);
                 tokio::spawn(async move {
                     let mut buf: Vec<u8> = Vec::new();
